@@ -16,6 +16,7 @@ import Midgard.Proofs.Rinex3ObsText
 import Midgard.Proofs.Rinex3ObsPost
 import Midgard.Proofs.Rinex3ObsHeader
 import Midgard.Spec.Rinex2ObsFile
+import Midgard.Proofs.Rinex2ObsEpoch
 
 namespace Midgard.Props.C11
 open Midgard.Text Midgard.FixedCol Midgard.ChainParser Midgard.RinexObs Midgard.Decimal
@@ -550,13 +551,42 @@ end File3
 `Spec/Rinex2ObsFile.lean` gives the abstract RINEX 2 file (header records incl. `# / TYPES OF OBSERV` continuation,
 epochs with flag, satellite-list continuation lines beyond 12 satellites, five observations per line, all-blank
 lines), its writer, `wf` and `expected`.  The statement `wf F → readData … (fileLines F) = expected rate F` is
-**not proved**; the driver evaluates this instance on every generated file (`c11 file2`), the rendered text is
+**not proved** (proved parts: `obs_lines2`, `obs_line2`, `sats_list2` below); the driver evaluates this instance on every generated file (`c11 file2`), the rendered text is
 compared byte for byte with the independent writer and `expected` with the real parser.  One instance, evaluated by
 the kernel (seven types = two lines per satellite, the second line of the first satellite all blank): -/
 
 section File2
 open Midgard.Spec.Rinex2ObsFile Midgard.Rinex2Obs
 open Midgard.Spec.Rinex3ObsFile (Cell IntCell NumCell Obs)
+
+/-- **RINEX 2: the lines of one satellite.**  With `n = num_obstypes` observation types, the satellite's observations
+come five per line (the last line filled up with blank fields; all-blank lines included): processing the lines of the
+satellite in a kept epoch collects the values in the cache as long as fewer than `n` are there, and the line that
+completes them appends exactly one row — the first `n` values under the `n` types, the satellite taken from the head
+of the epoch's satellite list, its number `int(sat[1:])` — removes the satellite from the list and clears the cache. -/
+theorem obs_lines2 (types : List Str) (m : Str) (e : EpochInfo) (obs : List Midgard.Spec.Rinex3ObsFile.Obs)
+    (hl : types.length = obs.length) (hpos : obs ≠ []) (s : State) (sat : Str) (rest : List Str)
+    (hs : s.cache.satList = some (sat :: rest)) (hne : sat ≠ []) (num : Int) (hnum : pyInt (sat.drop 1) = .ok num)
+    (hc : SatCtx types m s) (h0 : Holds [] s) :
+    (fivesOf (triples obs)).foldlM (fun st five => lineFx e five st) s =
+      match rowData s.data types obs e (lower m) sat num with
+      | .ok d => .ok (doneSat s d rest)
+      | .error err => .error err :=
+  sat_fives types m e obs hl hpos s sat rest hs hne num hnum hc h0
+
+/-- a line of a kept epoch whose five 16-character fields hold the values `five` has the effect `lineFx` -/
+theorem obs_line2 (v : Values) (s : State) (e : EpochInfo) (q : Rat) (five : List Triple)
+    (he : s.cache.epoch = some e) (hq : e.obsSec = some q)
+    (hv : (fieldsWithPrefix v "obs_").mapM (fun f => tripleOf f.2) = .ok five) :
+    parseObservation v s = lineFx e five s :=
+  parseObservation_five v s e q five he hq hv
+
+/-- **RINEX 2: the satellite list** of an epoch record or of a continuation line: the identifiers printed three
+columns each (the last character visible), followed by any number of blanks (trailing blanks stripped or not), are
+read back in order, a blank system as `G`, a blank tens digit as `0` -/
+theorem sats_list2 (sats : List Str) (ws : Str) (hs : ∀ s ∈ sats, Sat3 s) (hb : isBlank ws = true) :
+    satsOf (sats.flatten ++ ws) = .ok (sats.map normSat) :=
+  satsOf_sats sats ws hs hb
 
 def tiny2F : Midgard.Spec.Rinex2ObsFile.File :=
   let c (t : String) (v : Option Rat) : Cell := ⟨t.toList, v⟩
@@ -613,3 +643,6 @@ end Midgard.Props.C11
 #print axioms Midgard.Props.C11.parse_render3
 #print axioms Midgard.Props.C11.expected_columns_aligned
 #print axioms Midgard.Props.C11.postprocessors_keep_rows
+#print axioms Midgard.Props.C11.obs_lines2
+#print axioms Midgard.Props.C11.obs_line2
+#print axioms Midgard.Props.C11.sats_list2
